@@ -323,12 +323,16 @@ type c18Shape struct {
 	emptyAny   bool
 }
 
+// String is the discriminator used in violation signatures: an empty first fragment is one shape whatever the number
+// of CONTINUATION frames, otherwise the number of CONTINUATION frames (0, 1, 2+).
 func (s c18Shape) String() string {
-	n := "2+"
-	if s.ncont < 2 {
-		n = fmt.Sprint(s.ncont)
+	if s.emptyFirst {
+		return "first-fragment-empty"
 	}
-	return fmt.Sprintf("cont=%s,first-fragment-empty=%v", n, s.emptyFirst)
+	if s.ncont < 2 {
+		return fmt.Sprintf("cont=%d", s.ncont)
+	}
+	return "cont=2+"
 }
 
 type c18StreamGen struct {
